@@ -5,13 +5,17 @@ import (
 	"encoding/json"
 	"fmt"
 	"os"
+	"runtime/pprof"
 
 	"verif/harness/checks"
 	"verif/harness/chk"
 )
 
 var registry = map[string]func(*chk.Run){
+	"C01": checks.C01,
+	"C02": checks.C02,
 	"C05": checks.C05,
+	"C08": checks.C08,
 	"C06": checks.C06,
 }
 
@@ -25,6 +29,11 @@ func main() {
 	if !ok {
 		fmt.Fprintln(os.Stderr, "unknown check", id)
 		os.Exit(2)
+	}
+	if pf := os.Getenv("VERIF_CPUPROFILE"); pf != "" && os.Getenv("VERIF_WORKER_PHASE") == "" {
+		f, _ := os.Create(pf)
+		_ = pprof.StartCPUProfile(f)
+		defer pprof.StopCPUProfile()
 	}
 	r := chk.New(id, tier)
 	if len(os.Args) >= 5 && os.Args[3] == "--replay" {
@@ -47,5 +56,6 @@ func main() {
 		}
 	}()
 	fn(r)
+	pprof.StopCPUProfile()
 	r.Finish()
 }
